@@ -150,8 +150,8 @@ contract(
     requires=lambda self: [is_le(self)] + wf(self.manager, None) + in_tables(self) + futs_ok(self),
     ensures=lambda self, response, old, ghost: when(le_rsp_matches(old.self, response), le_close_post(self, old, ghost)[:3] + [implies(old.self.drained.is_set(), self.drained.is_set())] + le_close_post(self, old, ghost)[4:] + gone(self, old, ghost))
     + [implies(not le_rsp_matches(old.self, response), pool_same_except(ghost.chans, old.ghost.chans, []) and pool_same_except(ghost.cdicts, old.ghost.cdicts, []) and pool_same_except(ghost.futs, old.ghost.futs, []))]
-    + wf(self.manager, None),
-    ensures_names=LE_CLOSE_NAMES + EFFECT_NAMES + ['stray-response-ignored'] + WF_NAMES,
+    + wf(self.manager, None) + [ghost.frames == old.ghost.frames],
+    ensures_names=LE_CLOSE_NAMES + EFFECT_NAMES + ['stray-response-ignored'] + WF_NAMES + ['no-frame-sent'],
     uses=[ON_CLOSED],
     inline=LE_INLINE,
     modifies=CHAN_MOD,
@@ -227,8 +227,8 @@ contract(
     requires=lambda self: [not is_le(self)] + wf(self.manager, None) + in_tables(self) + futs_ok(self),
     ensures=lambda self, response, old, ghost: when(cl_rsp_matches(old.self, response), cl_close_post(self, old, ghost) + gone(self, old, ghost))
     + [implies(not cl_rsp_matches(old.self, response), pool_same_except(ghost.chans, old.ghost.chans, []) and pool_same_except(ghost.cdicts, old.ghost.cdicts, []) and pool_same_except(ghost.futs, old.ghost.futs, []))]
-    + wf(self.manager, None),
-    ensures_names=CL_CLOSE_NAMES + EFFECT_NAMES + ['stray-response-ignored'] + WF_NAMES,
+    + wf(self.manager, None) + [ghost.frames == old.ghost.frames],
+    ensures_names=CL_CLOSE_NAMES + EFFECT_NAMES + ['stray-response-ignored'] + WF_NAMES + ['no-frame-sent'],
     uses=[ON_CLOSED],
     inline=CL_INLINE,
     modifies=CHAN_MOD,
